@@ -36,6 +36,7 @@ func Build(repo, outDir, name string, race bool) (string, error) {
 	if p, ok := built[key]; ok {
 		return p, nil
 	}
+	_ = os.MkdirAll(filepath.Join(outDir, "bin"), 0o755)
 	out := filepath.Join(outDir, "bin", key)
 	args := []string{"build", "-tags", "verif"}
 	if race {
